@@ -42,6 +42,7 @@ calls the kernel on the complete grid x in {-1,0,1,2,4,7} x n in {0,2,3} x flag 
 semantics are observable) and prints every output slot.  DO WHILE loops of the templates call a tick() routine
 that stops the program after 5000 iterations, so a rewrite that makes a loop infinite fails fast.
 """
+import itertools
 import shutil
 import tempfile
 from pathlib import Path
@@ -89,7 +90,8 @@ contains
     integer :: v
     v = v + 3
   end subroutine noint
-  subroutine kern(x, n, flag, ia, io, ro)
+'''
+KERN_HEAD = '''  subroutine kern(x, n, flag, ia, io, ro)
     integer, intent(in) :: x, n
     logical, intent(in) :: flag
     integer, intent(inout) :: ia(4)
@@ -258,7 +260,7 @@ UV_EXTRA_CALLEE = '''  subroutine noset(v)
 '''
 
 
-def assemble(blocks, names, slots):
+def kernel_text(blocks, names, slots, kname='kern'):
     decl, body, members = [], [], []
     for nm in names:
         b = blocks[nm]
@@ -268,11 +270,34 @@ def assemble(blocks, names, slots):
         body += b['body'].replace('@', slot).split('\n')
         if b['members']:
             members += b['members'].replace('@', slot).split('\n')
-    text = HEAD.replace('  subroutine kern(', UV_EXTRA_CALLEE + '  subroutine kern(') if blocks is UV_BLOCKS else HEAD
+    text = KERN_HEAD.replace('subroutine kern(', f'subroutine {kname}(')
     text += ''.join(f'    {ln}\n' for ln in decl) + ''.join(f'    {ln}\n' for ln in body)
     if members:
         text += '  contains\n' + ''.join(f'    {ln}\n' for ln in members)
-    return text + TAIL_KERN + TAIL_MOD
+    return text + TAIL_KERN.replace('kern', kname)
+
+
+def module_text(blocks, kernels):
+    return HEAD + (UV_EXTRA_CALLEE if blocks is UV_BLOCKS else '') + ''.join(kernels) + TAIL_MOD
+
+
+def assemble(blocks, names, slots):
+    return module_text(blocks, [kernel_text(blocks, names, slots)])
+
+
+def batch_driver(knames):
+    calls = ''.join(f"""        io = 0
+        ro = 0.0
+        do e = 1, 4
+          ia(e) = e + mod(ix, 2)
+        end do
+        call {k}(xs(ix), ns(in), flag, ia, io, ro)
+        write(*,'(A,I0,1X,I0,1X,L1)') '{k} IN ', xs(ix), ns(in), flag
+        write(*,'(A,4(1X,I0))') 'IA', ia
+        write(*,'(A,60(1X,I0))') 'IO', io
+        write(*,'(A,8(1X,ES14.7))') 'RO', ro
+""" for k in knames)
+    return DRIVER[:DRIVER.index('        do e = 1, 4\n')] + calls + '      end do\n    end do\n  end do\nend program drv\n'
 
 
 # ---------------------------------------------------------------------------------------------- ua template
@@ -480,7 +505,7 @@ def _apply(case, files):
         return apply_sched(case, files, o)
     for sf in files.values():
         for r in sf.all_subroutines:
-            if r.name.lower() != 'kern':
+            if not r.name.lower().startswith('kern'):
                 continue
             if xf == 'constprop':
                 do_constant_propagation(r, unroll_loops=o['unroll_loops'])
@@ -552,13 +577,153 @@ def sigfn(results_by_id):
     return sig
 
 
+BATCH = 16
+GOOD = ('ok', 'unchanged-ok')
+
+
+def block_case(fam, chosen, n):
+    blocks, xfs = BLOCK_FAMILIES[fam]
+    slots = {nm: i + 1 for i, nm in enumerate(blocks)}
+    xf, opts = xfs[n]
+    return dict(id=case_id(fam, '+'.join(chosen), xf, opts), sources=[['cmod.f90', assemble(blocks, chosen, slots)]],
+                driver=DRIVER, xform=xf, opts=opts, family=fam, variant=n, switches=sorted(c for c in chosen if c != 'base'))
+
+
+def pair_batches(fam, n, healthy):
+    """all pairs of `healthy` blocks (menu order), BATCH kernels per module: one build per batch instead of one per pair"""
+    blocks, xfs = BLOCK_FAMILIES[fam]
+    slots = {nm: i + 1 for i, nm in enumerate(blocks)}
+    xf, opts = xfs[n]
+    pairs = list(itertools.combinations(healthy, 2))
+    for k in range(0, len(pairs), BATCH):
+        chunk = pairs[k:k + BATCH]
+        knames = [f'kern_{i + 1}' for i in range(len(chunk))]
+        kernels = [kernel_text(blocks, ['base', a, b], slots, kn) for (a, b), kn in zip(chunk, knames)]
+        yield dict(id=f'{fam}:batch{k // BATCH}|{xf}({opt_id(opts)})', sources=[['cmod.f90', module_text(blocks, kernels)]],
+                   driver=batch_driver(knames), xform=xf, opts=opts, family=fam, variant=n, switches=[],
+                   pairs=[list(pr) for pr in chunk], knames=knames)
+
+
+UA_BATCH = 8
+
+
+def ua_batch(members):
+    """K call-tree cases as K renamed modules umod_1..K in one directory (one Scheduler run, one build)"""
+    sources, uses, calls = [], [], []
+    for k, c in enumerate(members, 1):
+        sources.append([f'umod_{k}.f90', c['sources'][0][1].replace('umod', f'umod_{k}')])
+        uses.append(f'  use umod_{k}, only: top_{k} => top\n')
+        calls.append(f"""    x = g - 2
+    y = 3*g
+    r = g
+    a = (/ 0.5, 1.5, -1.0, 2.0, 0.25 /) * real(g)
+    call top_{k}(x, y, r, a)
+    write(*,'(A,I0,1X,I0,1X,I0,1X,I0)') 'R ', {k}, x, y, r
+    write(*,'(A,5(1X,ES14.7))') 'A', a
+""")
+    driver = ('program drv\n' + ''.join(uses) + '  implicit none\n  integer :: x, y, r, g\n  real :: a(5)\n  do g = 1, 4\n'
+              + ''.join(calls) + '  end do\nend program drv\n')
+    c0 = members[0]
+    return dict(id=f'ua:batch[{c0["id"]}..x{len(members)}]', sources=sources, driver=driver, xform=c0['xform'],
+                opts=c0['opts'], family='ua', variant=c0['variant'], switches=[], members=members,
+                knames=[f'umod_{k}' for k in range(1, len(members) + 1)])
+
+
+def batch_worker(bc):
+    """-> dict(fallback=bool, changed=[bool per kernel]); anything but a clean pass sends the pairs of the batch to
+    individual runs (so verdicts and replays always refer to single-kernel programs)"""
+    from loki import fgen
+    xform.quiet()
+    try:
+        orig = xform.build_run(bc['sources'], bc['driver'], base=worker.base, flags=FLAGS, timeout=300)
+        if not orig['ok']:
+            return dict(fallback=True, why='original')
+
+        def texts(files):
+            if bc['family'] == 'ua':
+                return {m.name.lower(): fgen(m) for sf in files.values() for m in sf.modules}
+            return {r.name.lower(): fgen(r) for sf in files.values() for r in sf.all_subroutines
+                    if r.name.lower().startswith('kern')}
+        files = xform.parse_sources(bc)
+        before = texts(files)
+        apply(bc, files)
+        after = texts(files)
+        new = [[f, files[f].to_fortran()] for f, _ in bc['sources']]
+        res = xform.build_run(new, bc['driver'], base=worker.base, flags=FLAGS, timeout=300)
+        if not res['ok'] or xform.norm_out(orig['out']) != xform.norm_out(res['out']):
+            return dict(fallback=True, why='differs')
+        return dict(fallback=False, changed=[before[k] != after.get(k) for k in bc['knames']])
+    except Exception as ex:  # pylint: disable=broad-except
+        return dict(fallback=True, why=f'{type(ex).__name__}')
+
+
+def run_pairs(ctx, singles, by_id):
+    """d = 2: every pair of blocks / switch settings that hold on their own (a block that violates alone makes every
+    superset violate with its signature, so it is reported at d = 1 and not combined further)."""
+    batches, subsumed, healthy_blocks = [], 0, {}
+    for fam, (blocks, xfs) in BLOCK_FAMILIES.items():
+        names = [k for k in blocks if k != 'base']
+        for n, (xf, opts) in enumerate(xfs):
+            healthy = [b for b in names if by_id[case_id(fam, f'base+{b}', xf, opts)]['verdict'] in GOOD]
+            healthy_blocks[f'{fam}/{n}'] = len(healthy)
+            subsumed += len(names) * (len(names) - 1) // 2 - len(healthy) * (len(healthy) - 1) // 2
+            batches += list(pair_batches(fam, n, healthy))
+    bres = ctx.pmap(batch_worker, batches, chunksize=1)
+    cases, results, fallback = [], [], []
+    for bc, br in zip(batches, bres):
+        for k, (a, b) in enumerate(bc['pairs']):
+            case = block_case(bc['family'], ['base', a, b], bc['variant'])
+            if br['fallback']:
+                fallback.append(case)
+            else:
+                cases.append(case)
+                results.append(dict(verdict='ok' if br['changed'][k] else 'unchanged-ok', changed=br['changed'][k],
+                                    detail='', id=case['id'], batched=True))
+    # call-tree template: pairs of switch settings; UA_BATCH renamed copies of the module per Scheduler run
+    ua_cases = {n: [] for n in range(len(UA_XF))}
+    for dev in deviations(UA_MENU, 2):
+        if len(dev) != 2:
+            continue
+        for n, (xf, opts) in enumerate(UA_XF):
+            if all(by_id[case_id('ua', f'{k}={v}', xf, opts)]['verdict'] in GOOD for k, v in dev.items()):
+                label = '+'.join(f'{k}={v}' for k, v in dev.items())
+                ua_cases[n].append(dict(id=case_id('ua', label, xf, opts), sources=[['umod.f90', ua_build(dev)]],
+                                        driver=UA_DRIVER, xform=xf, opts=opts, family='ua', variant=n,
+                                        switches=[f'{k}={v}' for k, v in dev.items()]))
+            else:
+                subsumed += 1
+    ua_batches = []
+    for n, lst in ua_cases.items():
+        for k in range(0, len(lst), UA_BATCH):
+            ua_batches.append(ua_batch(lst[k:k + UA_BATCH]))
+    ures = ctx.pmap(batch_worker, ua_batches, chunksize=1)
+    for bc, br in zip(ua_batches, ures):
+        for k, case in enumerate(bc['members']):
+            if br['fallback']:
+                fallback.append(case)
+            else:
+                cases.append(case)
+                results.append(dict(verdict='ok' if br['changed'][k] else 'unchanged-ok', changed=br['changed'][k],
+                                    detail='', id=case['id'], batched=True))
+    batches, bres = batches + ua_batches, bres + ures
+    fres = w2_xgroup.judge_grouped(ctx, fallback, group_worker)
+    info = dict(batches=len(batches), batches_fallen_back=sum(1 for r in bres if r['fallback']),
+                pairs_in_clean_batches=len(cases), pairs_run_individually=len(fallback),
+                pairs_subsumed_by_a_violating_single=subsumed, healthy_blocks=healthy_blocks)
+    return cases + fallback, results + fres, info
+
+
 def run(ctx):
     d = 1 if ctx.quick else 2
-    cases = make_cases(d)
+    cases = make_cases(1)
     worker.base = str(ctx.scratch)
     ctx.reset_pool()
     results = w2_xgroup.judge_grouped(ctx, cases, group_worker)
     by_id = {r['id']: r for r in results}
+    pair_info = None
+    if d == 2:
+        pc, pr, pair_info = run_pairs(ctx, cases, by_id)
+        cases, results = cases + pc, results + pr
     xform.summarise(ctx, cases, results, sigfn(by_id), min_changed=40)
     per_family = {}
     for c, r in zip(cases, results):
@@ -574,10 +739,13 @@ def run(ctx):
         bound=dict(max_blocks=d, blocks=dict(cp=len(CP_BLOCKS) - 1, dc=len(DC_BLOCKS) - 1, uv=len(UV_BLOCKS) - 1,
                                              ua={k: len(v) for k, v in UA_MENU.items()}),
                    xforms=dict(cp=len(CP_XF), dc=len(DC_XF), uv=len(UV_XF), ua=len(UA_XF)), inputs=36),
-        per_family=per_family,
-        rule=f'per template all combinations of <= {d} feature blocks x the transformation variants; 36 inputs per run '
-             '(4 for the call-tree template); non-trivial = the transformation changed the generated code and the program '
-             'still prints the original output',
+        per_family=per_family, pairs=pair_info,
+        rule=f'per template all combinations of <= {d} feature blocks x the transformation variants'
+             + (' (pairs: only of blocks that hold on their own for that variant; pairs containing a block that violates '
+                f'alone carry its signature and are counted as subsumed; {BATCH} pair-kernels per compiled module, a module '
+                'that does not pass cleanly is re-run pair by pair)' if d == 2 else '')
+             + '; 36 inputs per run (4 for the call-tree template); non-trivial = the transformation changed the generated '
+               'code and the program still prints the original output',
         samples=[dict(id=cases[0]['id']), dict(id=cases[-1]['id'], text=cases[-1]['sources'][0][1])],
     )
     ctx.assumptions += ['gfortran -O0 -fcheck=bounds -finit-integer=-9999 -finit-real=nan defines behaviour',
